@@ -19,9 +19,9 @@ def check_trials(chk, c):
             net = simmon.randomize(simlib.build_impl(c), c, aux['rs'])
             mean, sem = sim.run_multiple_trials(net, ntr, T, rand_seed=seed, progress_bar=False)
             net2 = simmon.randomize(simlib.build_impl(c), c, aux['rs'])
-            np.random.seed(seed); avgs = []; per_trial_ok = True
+            np.random.seed(seed); avgs = []; seeds = []
             for _ in range(ntr):
-                sd = np.random.randint(1, 10000)
+                sd = np.random.randint(1, 10000); seeds.append(int(sd))
                 tot = sim.simulation(net2, T, rand_seed=sd, progress_bar=False)
                 recs = simlib.extract_records(net2, T)
                 s = sum((recs[t][i]['TC'] for t in range(T) for i in c['ids']), Fraction(0))
@@ -37,6 +37,8 @@ def check_trials(chk, c):
         chk.fail('run_multiple_trials|mean', '%d trials, seed %d: returned mean %r but the mean of the per-trial average costs (same seeds) is %r' % (ntr, seed, mean, float(m)), c)
     if not close(sem, sem_want, rel=1e-7, abs_=1e-9):
         chk.fail('run_multiple_trials|sem', '%d trials, seed %d: returned SEM %r but std(ddof=0)/sqrt(n) of the per-trial averages is %r' % (ntr, seed, sem, sem_want), c)
+    # (each trial re-seeds the generator with its own seed, so the seed of the next trial is a function of it: after some 100 trials a seed repeats)
+    chk.count('trials:a-trial-seed-repeats=%s' % (len(set(seeds)) < len(seeds)))
     return len(set(avgs)) > 1
 
 
@@ -47,6 +49,14 @@ def trials_stream(chk, n):
         c['aux'] = dict(rs=simmon.gen_rng_spec(chk.rng, c), ntr=chk.rng.randint(2, 5), seed=chk.rng.randint(1, 10 ** 6))
         varied = check_trials(chk, c)
         chk.count('trials:n=%d' % c['aux']['ntr']); chk.count('trials:trial-costs-differ=%s' % bool(varied))
+        chk.case(c, bool(varied), simlib.case_key(c) + json.dumps(c['aux'], sort_keys=True))
+    # many trials (ordinary use is 10-1000 trials): 1-2 nodes, 4 periods, 150-300 trials, so that also trials with EQUAL seeds / equal costs occur
+    for _ in range(max(3, n // 8)):
+        c = simlib.gen_case(chk.rng, nmax=2, tmax=4)
+        c['mode'] = 'trials'; c['malformed'] = None
+        c['aux'] = dict(rs=simmon.gen_rng_spec(chk.rng, c), ntr=chk.rng.randint(150, 300), seed=chk.rng.randint(1, 10 ** 6))
+        varied = check_trials(chk, c)
+        chk.count('trials:n>=150'); chk.count('trials:trial-costs-differ=%s' % bool(varied))
         chk.case(c, bool(varied), simlib.case_key(c) + json.dumps(c['aux'], sort_keys=True))
 
 
